@@ -29,7 +29,7 @@
 //   d10_test.go:230: iteration 171: Run logged 'new connection accepted' (and then did connWg.Add(1)) AFTER Stop() had returned
 //   d10_test.go:238: 3000 iterations in 11.509s: 2141 with an accepted connection; accepted-after-Stop-returned=6; OnClose-after-Stop-returned=190 (the latter also includes D8)
 //   d10_test.go:241: D10: in 6 of 3000 iterations a connection was accepted/registered after Stop() returned
-//   --- FAIL: TestD10_Stress          (5 more runs: 5, 7, 5, 8, 5 of 3000 iterations; ~10s per run)
+//   --- FAIL: TestD10_Stress          (4 more runs: 5, 7, 5, 8 of 3000 iterations; ~10s per run)
 //   with -race additionally (38 of 3000 iterations in that run):
 //   WARNING: DATA RACE
 //   Write at 0x... by goroutine N:  gldap.(*Server).Stop()  server.go:273   <- connWg.Wait()
